@@ -135,6 +135,24 @@ fn value_of(t: &T, mu: &Mu) -> Option<String> {
     }
 }
 
+/// numeric value of an arithmetic expression; None = type error / unbound / division by zero
+fn eval_arith(a: &Arith, mu: &Mu) -> Option<f64> {
+    match a {
+        Arith::Operand(t) => value_of(t, mu)?.parse::<f64>().ok(),
+        Arith::Add(x, y) => Some(eval_arith(x, mu)? + eval_arith(y, mu)?),
+        Arith::Sub(x, y) => Some(eval_arith(x, mu)? - eval_arith(y, mu)?),
+        Arith::Mul(x, y) => Some(eval_arith(x, mu)? * eval_arith(y, mu)?),
+        Arith::Div(x, y) => {
+            let d = eval_arith(y, mu)?;
+            if d == 0.0 {
+                None
+            } else {
+                Some(eval_arith(x, mu)? / d)
+            }
+        }
+    }
+}
+
 fn eval_expr(e: &Expr, mu: &Mu) -> Tv {
     match e {
         Expr::Cmp(a, op, b) => {
@@ -156,6 +174,24 @@ fn eval_expr(e: &Expr, mu: &Mu) -> Tv {
                         _ => unreachable!(),
                     }
                 }
+            };
+            if r {
+                Tv::True
+            } else {
+                Tv::False
+            }
+        }
+        Expr::ArithCmp(a, op, b) => {
+            let (Some(x), Some(y)) = (eval_arith(a, mu), eval_arith(b, mu)) else {
+                return Tv::Err;
+            };
+            let r = match op {
+                Cmp::Eq => x == y,
+                Cmp::Ne => x != y,
+                Cmp::Lt => x < y,
+                Cmp::Le => x <= y,
+                Cmp::Gt => x > y,
+                Cmp::Ge => x >= y,
             };
             if r {
                 Tv::True
@@ -682,6 +718,19 @@ pub fn selftest() -> Vec<String> {
     sub.limit = Some(1);
     let s = Select::simple(&["s", "x"], Group(vec![Elem::Triples(vec![tp(v("s"), i("q"), v("x"))]), Elem::Sub(Box::new(sub))]));
     expect("subselect-limit", &s, vec![vec!["b", "2"]]);
+    // arithmetic filter: (x + 1) * 2 > 4  keeps x = 2 only
+    let s = Select::simple(
+        &["s"],
+        Group(vec![
+            Elem::Triples(vec![tp(v("s"), i("q"), v("x"))]),
+            Elem::Filter(Expr::ArithCmp(
+                Arith::Mul(Box::new(Arith::Add(Box::new(Arith::Operand(v("x"))), Box::new(Arith::Operand(T::Num("1".into()))))), Box::new(Arith::Operand(T::Num("2".into())))),
+                Cmp::Gt,
+                Arith::Operand(T::Num("4".into())),
+            )),
+        ]),
+    );
+    expect("arith-filter", &s, vec![vec!["b"]]);
     // check_rows: legal cut
     let mut s = Select::simple(&["x"], Group(vec![Elem::Triples(vec![tp(v("s"), i("q"), v("x"))])]));
     s.order_by = vec![("x".into(), false)];
